@@ -118,7 +118,8 @@ def gen_case(rng, tier, idx):
                     return "@S@/log_%s.log" % layer
                 if k == "loglevel":
                     return rng.choice(["DEBUG", "INFO", "ERROR"])
-                return "%s_%s" % (layer, k)
+                # free text: also with the characters a configuration-file reader may take for interpolation syntax
+                return "%s_%s%s" % (layer, k, rng.choice(["", "", "", "_p%40ss", "_100%", "_%(here)s", "_%%x", "_$HOME", "_${x}"]))
             if rng.random() < p:
                 file_kv[k] = sval("f")
             if rng.random() < p:
